@@ -5,8 +5,11 @@
    posterior <rescale>                              -> "loc ..." , "scale ..." , "df n" , "kerman ..." (√ of eq. 5 × |rescale|)
    summary <loc> <scale> <qA> <qU|none> <thr>       -> estimate precision lower upper|inf z      (z = (thr − loc)/scale)
    iroas <loc> <scale> <cost> <qA> <qU|none> <thr>  -> estimate lower upper|inf precision z incCost incResp incRespLower incRespUpper|inf
+   tests <nTest> <tqSig> <minCorr> <bbBound> <dwLo> <dwHi>   (pre series = the full pretest series x, y)
+        -> dw dwOk bbOk corrOk aaLower aaUpper aaHasProb probeA probeB   (probeA/B: the A/A probability formula with cdf z ↦ z and z ↦ z²)
    bands <qLo> <qHi>   (uses the last posterior and obs) -> 9 lines: cum/pw/cf × lower/estimate/upper                                   -/
 import MM.Model.Numeric
+import MM.Model.DiagTests
 import MM.Driver.Wire
 open MM.Numeric
 
@@ -61,6 +64,18 @@ partial def loop (h : IO.FS.Stream) (s : S) : IO Unit := do
     let r := iroasFixed (fbits loc) (fbits sc) (fbits cost) (fbits qA) (optF qU) (fun z => z) (fbits thr)
     IO.println (showL [r.estimate, r.lower] ++ " " ++ showO r.upper ++ " " ++ showL [r.precision, 1 - r.probability,
       r.incrementalCost, r.incrementalResponse, r.incrementalResponseLower] ++ " " ++ showO r.incrementalResponseUpper)
+    loop h s
+  | ["tests", nT, tqS, minC, bbB, dwLo, dwHi] =>
+    let nT := nT.toNat?.getD 1
+    let fit := ols s.prex s.prey
+    let sigma := std2 fit.resid
+    let dw := dwStat fit.resid
+    let b2f (b : Bool) : Float := if b then 1 else 0
+    let aaA := aaTest s.prex s.prey nT (fbits tqS) (fun z => z) 0
+    let aaB := aaTest s.prex s.prey nT (fbits tqS) (fun z => z * z) 0
+    IO.println (showL [dw, b2f (dwOk dw (fbits dwLo) (fbits dwHi)), b2f (bbOk fit.resid sigma (fbits bbB)),
+      b2f (corrTestOk (corr s.prex s.prey) (fbits minC)), aaA.lower, aaA.upper, b2f aaA.prob.isSome,
+      aaA.prob.getD 0, aaB.prob.getD 0])
     loop h s
   | ["bands", qLo, qHi] =>
     let c := cumulativeBand s.post.loc s.post.scale (fbits qLo) (fbits qHi)
